@@ -11,6 +11,12 @@ Pipeline level: `whatshap phase` on simulated data with depth above the cap; fro
 (chromosome, family): selected reads per sample are candidates of that sample, obey the per-sample cap
 max(1, k // len(family)) and are maximal, and the reads handed to the solver span no accessible position more
 than --internal-downsampling = k times in total (families of at most k members).
+
+Selection stage (Model/C07Pipe.lean): the `len(read) >= 2` filter, the real `select_reads` and `ReadSet.subset` in-process
+on read sets with short reads and several sources (candidates, order, selected in the model's outcome set, predicates incl.
+"preferred reads first"); whole-run scenarios of harness/gen/c03_pipe.py with caps 0 / negative / 23 / 24: share
+`max(1, k // len(family))` = `c07.share`, exact outcome membership for small candidate sets, span counts of the merged read
+set = `c07.merged`, no admissible fragment missing among the candidates.
 """
 import contextlib, io, json, os, shutil
 
@@ -25,7 +31,8 @@ MANIFEST = dict(
     text="Lean 4 theorems (all read sets, all k, all tie choices of an abstract priority queue) about a hand-written "
          "model of readselection/readselection_helper/_slice_read_selection/CovMonitor: subset, cap invariant, "
          "termination with proved fuel bounds, maximality of the repaired code (and a machine-checked witness that the "
-         "code with defect F9 is not maximal), per-family total cap. The model is tied to the working tree by requiring "
+         "code with defect F9 is not maximal), per-family total cap, and the selection stage of `whatshap phase` (candidate "
+         "filter, integer share, subset order, preferred reads first, merged family read set, table bound). The model is tied to the working tree by requiring "
          "the implementation's result to be one of the model's enumerated outcomes (proved to be exactly the outcomes of the "
          "verified function over all tie choices: allOutcomes_sound / allOutcomes_complete) on small inputs, and the property "
          "predicates are evaluated independently on the implementation's output for all sizes and on `whatshap phase` traces",
